@@ -242,7 +242,8 @@ def _atmos_history_job(k):
     prob.model.set_input_defaults("Mach_number", float(rng.uniform(0.3, 0.85)))
     prob.setup()
     prob.run_model()
-    return {"k": k, "cases": compzero.component_cases(prob)}
+    # ... and OASLifecycle.Resetup at system granularity: the group and each of its components set up twice on the same instance
+    return {"k": k, "cases": compzero.component_cases(prob) + compzero.resetup_cases(prob)}
 
 
 def _units_job(k):
